@@ -872,7 +872,11 @@ static void run_script(FILE* in) {
                 else if (!strncmp(tok[i], "fail=", 5)) env.fail = (unsigned)strtoul(tok[i] + 5, NULL, 10);
             }
         }
-        else if (!strcmp(op, "str")) { size_t n = unhex(tok[2], tmp, tmp_cap); set_sreg(reg(tok[1]), tmp, n); }
+        else if (!strcmp(op, "str")) {
+            size_t n = unhex(tok[2], tmp, tmp_cap); set_sreg(reg(tok[1]), tmp, n);
+            /* the register no longer holds a phrase issued by the library */
+            fprintf(out, "{\"e\":\"Str\",\"sreg\":%d", reg(tok[1])); eol();
+        }
         else if (!strcmp(op, "buf")) { int r = reg(tok[1]); memset(bregs[r], 0, POLYSEED_SIZE); unhex(tok[2], bregs[r], POLYSEED_SIZE); bset[r] = true; }
         else if (!strcmp(op, "inject")) {
             /* the caller's struct lives in scratch memory that is overwritten right after the call */
@@ -997,6 +1001,7 @@ static void run_script(FILE* in) {
             fprintf(out, ",\"ret\":%zu,\"terminated\":%s,\"spill\":%s", C.ret > 100000 ? (size_t)100000 : C.ret,
                 slen < sizeof g_str_out_area[0] ? "true" : "false", spill ? "true" : "false");
             emit_bytes("str", (uint8_t*)g_str_out_area[0], slen);
+            fprintf(out, ",\"sreg\":%d", sr);
             emit_ret_end();
             if (slen >= sizeof g_str_out_area[0]) slen = sizeof g_str_out_area[0] - 1;
             set_sreg(sr, (uint8_t*)g_str_out_area[0], slen);
@@ -1012,8 +1017,8 @@ static void run_script(FILE* in) {
             prepare_nfkd(s);
             uint8_t* gp = guard_place(s, n + 1);
             C.str = (const char*)gp; nfkd_for = C.str;
-            fprintf(out, "{\"e\":\"Begin\",\"op\":\"%s\",\"coin\":%d,\"lang\":\"%s\",\"wantlang\":%s", ex ? "DecodeX" : "Decode", (int)C.coin,
-                lid, C.want_lang ? "true" : "false");
+            fprintf(out, "{\"e\":\"Begin\",\"op\":\"%s\",\"coin\":%d,\"lang\":\"%s\",\"wantlang\":%s,\"sreg\":%d", ex ? "DecodeX" : "Decode", (int)C.coin,
+                lid, C.want_lang ? "true" : "false", sr);
             emit_bytes("str", s, n > EVBUF ? EVBUF : n); fprintf(out, ",\"len\":%zu", n); eol();
             needles_text(nfkd_prepared, nfkd_prepared_n < 1000 ? nfkd_prepared_n : 1000);
             api_call(true);
